@@ -398,6 +398,7 @@ func NewAppDB(homeDir string, cfg *config.Config) *AppDB {
 	if err != nil {
 		panic(err)
 	}
+	newDB = verifWrapDB(newDB)
 	return &AppDB{
 		db: newDB,
 	}
